@@ -226,7 +226,9 @@ void tree_ctor()
                x.disarm();
                x.result_is(t, want);
                VRT_CHECK(parents_ok(t), x.op() + ":parent_links", "parent links broken");
-               VRT_CHECK(l.empty(), x.op() + ":children:not_cleared", "moved-from child list still has %zu nodes", l.size());
+               // the state of the moved-from child list is not promised: information only
+               if (!l.empty())
+                 vrt::count("info:" + x.op() + ":moved_from_child_list_not_empty");
              });
   for (int n : sizes())
     for_cat([&](auto c) {
@@ -410,20 +412,33 @@ void tree_map()
         x.arm();
         btree r = ci ? fcppt::container::tree::map<btree>(std::as_const(t), f) : fcppt::container::tree::map<btree>(t, f);
         x.disarm();
-        // the callback is called once per node; the result holds the created values in pre-order
+        // the callback sees the values of the tree and nothing else (how often and in which order is not promised: a second
+        // call for a node is only counted); the result holds, node by node in pre-order, a value made from that node's value
         std::vector<int> const want_seen = ids_of(t);
-        std::vector<int> sorted_seen = seen, sorted_want = want_seen;
-        std::sort(sorted_seen.begin(), sorted_seen.end());
-        std::sort(sorted_want.begin(), sorted_want.end());
-        VRT_CHECK(sorted_seen == sorted_want, x.op() + ":callback_elements", "callback saw %s, tree holds %s", show(seen).c_str(),
+        std::set<int> const seen_set(seen.begin(), seen.end()), want_set(want_seen.begin(), want_seen.end());
+        VRT_CHECK(seen_set == want_set, x.op() + ":callback_elements", "callback saw %s, tree holds %s", show(seen).c_str(),
                   show(want_seen).c_str());
-        std::map<int, int> made_for;
+        if (seen.size() != want_seen.size())
+          vrt::count("info:" + x.op() + ":callback_not_called_exactly_once_per_node");
+        std::map<int, int> source_of; // made id -> id of the source value it was made from
         for (std::size_t i = 0; i < seen.size() && i < made.size(); ++i)
-          made_for[seen[i]] = made[i];
-        std::vector<int> want;
-        for (int i : want_seen)
-          want.push_back(made_for[i]);
-        x.result_is(r, want);
+          source_of[made[i]] = seen[i];
+        std::vector<item> const got = items_of(r);
+        std::vector<int> got_sources;
+        for (item const &i : got)
+        {
+          got_sources.push_back(source_of.count(i.id) ? source_of[i.id] : -1);
+          VRT_CHECK(!i.moved, x.op() + ":result:holds_moved_from_element", "result element id %d is moved-from", i.id);
+        }
+        VRT_CHECK(got_sources == want_seen, x.op() + ":result:wrong_elements", "result nodes were made from %s, tree holds %s",
+                  show(got_sources).c_str(), show(want_seen).c_str());
+        std::set<int> const distinct(got_sources.begin(), got_sources.end());
+        (void)distinct;
+        {
+          std::set<int> ids;
+          for (item const &i : got)
+            VRT_CHECK(ids.insert(i.id).second, x.op() + ":result:element_duplicated", "made value id %d appears twice", i.id);
+        }
         x.after("tree", t);
       });
 }
